@@ -122,13 +122,14 @@ def cmpKey : List Tok → List Tok → Int
   | _ :: _, [] => 1
   | x :: xs, y :: ys => if cmpTok x y ≠ 0 then cmpTok x y else cmpKey xs ys
 
-/-- length of the longest digit run (`cur` = length of the run being read) -/
-def maxRunAux : Bytes → Nat → Nat → Nat
-  | [], cur, best => max cur best
-  | b :: t, cur, best => if isDigit b then maxRunAux t (cur + 1) best else maxRunAux t 0 (max cur best)
+/-- the value of a digit run fits Go's 64-bit `int` -/
+def fitsInt : Tok → Bool
+  | .num v => v < 9223372036854775808
+  | .str _ => true
 
-/-- every digit run has at most 18 digits, so its value is below 10^18 < 2^63 (no `int` overflow) -/
-def noOverflow (s : Bytes) : Bool := maxRunAux s 0 0 ≤ 18
+/-- no digit run of `s` overflows `int` (in particular: every run has at most 18 digits, or any
+number of leading zeros followed by at most 18 digits) -/
+def noOverflow (s : Bytes) : Bool := (key s).all fitsInt
 
 /-- the specification of `CompareNatural` -/
 def natCompare (a b : Bytes) : Int := cmpKey (key a) (key b)
